@@ -241,9 +241,18 @@ def run_check(pid, tier, seed):
     ctx = Ctx(pid, tier, seed)
     rc = 0
     try:
+        # build + import the code under test once, in the parent, before any worker is forked
+        if getattr(mod, "META", {}).get("engine", "").find("tapedfs") >= 0 and pid != "C17":
+            from . import tape
+            tape.lib()
+        else:
+            paths.import_qubovert("plain")
         mod.run(ctx)
     except HarnessError as e:
         print("HARNESS-ERROR %s: %s" % (pid, e), flush=True)
+        return 2
+    except Exception as e:  # e.g. BuildError: harness failure, never a violation
+        print("HARNESS-ERROR %s: %r" % (pid, e), flush=True)
         return 2
     st = ctx.stats
     known = load_known()
